@@ -19,6 +19,7 @@ import (
 	"github.com/prometheus/prometheus/model/labels"
 	"pgregory.net/rapid"
 
+	"tkestack.io/kvass/pkg/prom"
 	"tkestack.io/kvass/pkg/shard"
 	"tkestack.io/kvass/pkg/sidecar"
 	"tkestack.io/kvass/pkg/target"
@@ -85,7 +86,10 @@ func statusKeys(info sidecar.TargetsInfo) []uint64 {
 	return ks
 }
 
-var hostileValues = []string{"plain", "", "with \"quotes\"", "new\nline", "back\\slash", "tab\there", "ünïcödé-世界", "<html>&amp;", "{\"json\":1}", "null", "true", "a: b # c", " sep", strings.Repeat("x", 300)}
+var hostileValues = []string{"plain", "", "with \"quotes\"", "new\nline", "back\\slash", "tab\there", "ünïcödé-世界", "<html>&amp;", "{\"json\":1}", "null", "true", "a: b # c", " sep", strings.Repeat("x", 300),
+	// valid UTF-8 outside the comfortable range: private-use planes, tag characters, the last code point,
+	// an emoji, BMP invisibles, line separator, DEL and C0 controls
+	"\U000F0000priv", "\U0010FFFF", "tag\U000E0001\U000E0041", "emoji-\U0001F600", "\u200bzwsp\ufeff", "ls\u2028ps\u2029", "\x7fdel\x01\x1f"}
 
 func genAssign(t *rapid.T, label string, maxTargets int) Assign {
 	a := Assign{}
@@ -138,8 +142,37 @@ func newTM(dir string) *sidecar.TargetsManager {
 	return sidecar.NewTargetsManager(dir, prometheus.NewRegistry(), quiet)
 }
 
+// wiredConfig knows the jobs j0 and j3 only; assignments also name jobs the configuration does not have
+const wiredConfig = `global:
+  scrape_interval: 15s
+scrape_configs:
+- job_name: j0
+  static_configs:
+  - targets: ['x:1']
+- job_name: j3
+  metrics_path: /probe
+  params:
+    module: [http_2xx]
+  static_configs:
+  - targets: ['x:2']
+`
+
+// newTMWired is a TargetsManager wired to a real Injector the way cmd/kvass/sidecar.go wires it (the
+// configuration is known before the store is loaded, as with --config.file): what the update callbacks do
+// with the assignment they are handed is part of what gets persisted.
+func newTMWired(dir string) *sidecar.TargetsManager {
+	tm := newTM(dir)
+	cm := prom.NewConfigManager()
+	inj := sidecar.NewInjector(filepath.Join(dir, "prometheus-out.yml"),
+		sidecar.InjectConfigOptions{ProxyURL: "http://127.0.0.1:8008", PrometheusURL: "http://127.0.0.1:9090"}, prometheus.NewRegistry(), quiet)
+	cm.AddReloadCallbacks(inj.ApplyConfig)
+	tm.AddUpdateCallbacks(inj.UpdateTargets)
+	_ = cm.ReloadFromRaw([]byte(wiredConfig))
+	return tm
+}
+
 func recC09() *vkit.Recorder {
-	r := vkit.Rec("C09", "fault_enumeration", "(a) rapid sequences of assignments (0-3 jobs, label values needing JSON escaping, both states, 63-bit hashes and series) applied through the real UpdateTargets, each followed by a fresh TargetsManager.Load on the same directory; (b) pairs (A acknowledged, B being written): a child process performs the real UpdateTargets(B) under RLIMIT_FSIZE = N for every byte offset N of the file (all offsets for files <= 400 bytes, a stratified sample otherwise), snapshots the store directory, the parent then starts twice from each snapshot; (c) old store file name fallback. Non-trivial = torn write strictly inside the file with A != B, or a reload of a non-empty assignment; distinct = digest of (A, B, offset) / of the assignment sequence")
+	r := vkit.Rec("C09", "fault_enumeration", "every TargetsManager outside the size-limited child is wired to a real Injector as in cmd/kvass/sidecar.go; label values include private-use-plane, tag, invisible and control characters; (a) rapid sequences of assignments (0-3 jobs, label values needing JSON escaping, both states, 63-bit hashes and series) applied through the real UpdateTargets, each followed by a fresh TargetsManager.Load on the same directory; (b) pairs (A acknowledged, B being written): a child process performs the real UpdateTargets(B) under RLIMIT_FSIZE = N for every byte offset N of the file (all offsets for files <= 400 bytes, a stratified sample otherwise), snapshots the store directory, the parent then starts twice from each snapshot; (c) old store file name fallback. Non-trivial = torn write strictly inside the file with A != B, or a reload of a non-empty assignment; distinct = digest of (A, B, offset) / of the assignment sequence")
 	r.Assume("a write interrupted at byte N is modelled by RLIMIT_FSIZE=N in a child process (the write syscall stores exactly the bytes below the limit, then fails with EFBIG); the rename/unlink system calls themselves are atomic; one UpdateTargets at a time (the sidecar API handler is the only writer)")
 	return r
 }
@@ -154,7 +187,7 @@ func runRoundTrip(rec *vkit.Recorder, c *rtCase) []vkit.Violation {
 	var vs []vkit.Violation
 	dir, _ := ioutil.TempDir("", "c09-rt-")
 	defer os.RemoveAll(dir)
-	tm := newTM(dir)
+	tm := newTMWired(dir)
 	if err := tm.Load(); err != nil {
 		return []vkit.Violation{{Key: "C09/fresh-load-fails", Msg: err.Error()}}
 	}
@@ -172,7 +205,7 @@ func runRoundTrip(rec *vkit.Recorder, c *rtCase) []vkit.Violation {
 		}
 		// "restart": a fresh manager on the same directory (possibly twice)
 		for r := 0; r < 2; r++ {
-			n := newTM(dir)
+			n := newTMWired(dir)
 			if err := n.Load(); err != nil {
 				return append(vs, vkit.Violation{Key: "C09/restart-load-fails", Msg: fmt.Sprintf("step %d restart %d: %v", i, r, err)})
 			}
@@ -379,7 +412,7 @@ func runTorn(rec *vkit.Recorder, c *tornCase, full bool) []vkit.Violation {
 		store := filepath.Join(root, fmt.Sprintf("n%d", n))
 		var first string
 		for r := 0; r < 2; r++ {
-			tm := newTM(store)
+			tm := newTMWired(store)
 			if err := tm.Load(); err != nil {
 				vs = append(vs, vkit.Violation{Key: "C09/torn-write/next-start-fails", Msg: fmt.Sprintf("write of B stopped at byte %d of %d: start %d fails: %v", n, size, r+1, err)})
 				break
@@ -475,7 +508,7 @@ func TestC09OldFile(t *testing.T) {
 		data, _ := json.Marshal(a.request().Targets)
 		_ = ioutil.WriteFile(filepath.Join(dir, "targets.json"), data, 0644)
 		for r := 0; r < 2; r++ {
-			tm := newTM(dir)
+			tm := newTMWired(dir)
 			if err := tm.Load(); err != nil {
 				t.Fatalf("C09/old-file/load-fails: %v", err)
 			}
